@@ -27,6 +27,7 @@ json.dump({"property":pid,"origin":"independent sub-agent given only the propert
  open(dst+"/meta.json","w"),indent=1)
 PY
   echo "STORED $DST"
+  cd /; git -C /repo worktree remove --force "$WT"   # only once stored: an unconfirmed worktree is kept for a second look
 else
   echo "NOT CONFIRMED - not stored"
 fi
